@@ -53,13 +53,13 @@ type RunOut struct {
 }
 
 var (
-	reStarted  = regexp.MustCompile(`^task: "t(\d+)-([^"]*)" started\n$`)
-	reFinished = regexp.MustCompile(`^task: "t(\d+)-([^"]*)" finished\n$`)
-	rePlatform = regexp.MustCompile(`^task: "t(\d+)-([^"]*)" not for current platform - ignored(\\n|\n)$`)
+	reStarted  = regexp.MustCompile(`^task: "t(\d+):w-([^"]*)" started\n$`)
+	reFinished = regexp.MustCompile(`^task: "t(\d+):w-([^"]*)" finished\n$`)
+	rePlatform = regexp.MustCompile(`^task: "t(\d+):w-([^"]*)" not for current platform - ignored(\\n|\n)$`)
 	reSkipping = regexp.MustCompile(`^task: skipping execution of task: (.*)\n$`)
-	reAnnounce = regexp.MustCompile(`^task: \[t(\d+)-\*\] printf '%s\\n' '([PD])\|([^|']*)\|(\d+)\|(\d*)(?:\|(\d*))?'`)
+	reAnnounce = regexp.MustCompile(`^task: \[t(\d+):w-\*\] printf '%s\\n' '([PD])\|([^|']*)\|(\d+)\|(\d*)(?:\|(\d*))?'`)
 	reProbe    = regexp.MustCompile(`^([PD])\|([^|]*)\|(\d+)\|(\d*)(?:\|(\d*))?\n$`)
-	reUpToDate = regexp.MustCompile(`^task: Task "t(\d+)-\*" is up to date\n$`)
+	reUpToDate = regexp.MustCompile(`^task: Task "t(\d+):w-\*" is up to date\n$`)
 	reKPath    = regexp.MustCompile(`^K(\d+)v(\d+)(.*)$`)
 )
 
@@ -67,7 +67,8 @@ func autoRelease(stream string, data []byte) bool {
 	s := string(data)
 	return strings.Contains(s, "error ignored") || strings.Contains(s, "ignored error in deferred cmd") ||
 		strings.Contains(s, "[assuming yes]") || strings.HasPrefix(s, "task: precondition-msg") ||
-		strings.Contains(s, "error cleaning status") || strings.HasPrefix(s, "task: status command ")
+		strings.Contains(s, "error cleaning status") || strings.HasPrefix(s, "task: status command ") ||
+		strings.HasPrefix(s, "task: dynamic variable:")
 }
 
 type runner struct {
@@ -146,7 +147,7 @@ func (r *runner) parse(ev sched.Event) (*Ev, bool) {
 	if m := reSkipping.FindStringSubmatch(d); m != nil {
 		k := m[1]
 		if strings.HasPrefix(k, r.rootFile+":t") {
-			t := strings.TrimSuffix(strings.TrimPrefix(k, r.rootFile+":t"), "-*")
+			t := strings.TrimSuffix(strings.TrimPrefix(k, r.rootFile+":t"), ":w-*")
 			return &Ev{Kind: "skipping", Key: "once:" + t}, true
 		}
 		if key, ok := r.whenHash[k]; ok {
@@ -237,7 +238,7 @@ func Execute(p *Prog, seed int64, procs int, script []string) (*RunOut, error) {
 			for v := 0; v < 3; v++ {
 				vars := ast.NewVars()
 				vars.Set("V", ast.Var{Value: fmt.Sprint(v)})
-				ct, err := e0.CompiledTask(&task.Call{Task: fmt.Sprintf("t%d-x", i), Vars: vars})
+				ct, err := e0.CompiledTask(&task.Call{Task: fmt.Sprintf("t%d:w-x", i), Vars: vars})
 				if err != nil {
 					continue
 				}
@@ -266,7 +267,11 @@ func Execute(p *Prog, seed int64, procs int, script []string) (*RunOut, error) {
 	}
 	old := runtime.GOMAXPROCS(procs)
 	defer func() { runtime.GOMAXPROCS(old) }()
-	var ch sched.Chooser = sched.RandChooser{R: rand.New(rand.NewSource(seed))}
+	rr := rand.New(rand.NewSource(seed))
+	var ch sched.Chooser = sched.RandChooser{R: rr}
+	if seed%2 == 0 {
+		ch = &sched.StarveChooser{R: rr, After: rr.Intn(12)}
+	}
 	if script != nil {
 		ch = &sched.ScriptChooser{Labels: script}
 	}
